@@ -125,6 +125,9 @@ def _structure(
                     for n2 in l1:
                         k1 = n1.node_hash
                         k2 = n2.node_hash
+                        if k1 == k2:
+                            # The same node reached a second time: no dependency of a node on itself.
+                            continue
                         if k1 not in node_deps:
                             node_deps[k1] = set()
                         if k2 not in node_deps:
